@@ -365,7 +365,8 @@ def check(run, replay=None):
                     ("fork." if t["cfg"]["forked"] else "pipe.") + t["cfg"]["kind"], t.get("origin"), hw + 1,
                     cmd_str(t["wins"][hw]["cmd"]) if hw < len(t["wins"]) else "-", model, json.dumps(t["wins"][hw]["done"])[:200] if hw < len(t["wins"]) else "", json.dumps(t["wins"][hw]["q"]) if hw < len(t["wins"]) else ""))
             log("phase: TRACE-I %s: %d traces, %d accepted, %d rejected" % (model, len(sample), acc, len(rej)))
-        if pid == "C09":
+        if pid in ("C09", "C10", "C12", "C13"):
+            # the stages with more than one library goroutine touching shared state: the same schedules under the race detector
             race_pass(run, scheds, d, rng, th)
         kinds = collections.Counter((t["cfg"]["kind"], t.get("origin", "")) for t in traces)
         run.notes["executions_by_kind_and_origin"] = {"%s/%s" % k: v for k, v in sorted(kinds.items())}
@@ -534,6 +535,9 @@ def other_cfgs(pid, th, rng):
         for k in [0, 1, 2, 3]:
             for cap in [0, 1]:
                 out.append(C(kind="Join", cap=cap, inputs=[[100 * (i + 1) + j for j in range(1, 3 + (1 if th else 0))] for i in range(k)]))
+                if k >= 1:
+                    # the same channel handed to Join more than once
+                    out.append(C(kind="Join", cap=cap, inputs=[[100 * (i + 1) + j for j in range(1, 4)] for i in range(k)], dup=[0] if k < 3 else [0, 2]))
     if pid in ("C06", "C13"):
         for ops in [1, 2, 3]:
             for iv in [2, 3]:
@@ -623,6 +627,11 @@ def special_scheds(pid, th, rng):
                         for rep in range(3):        # the pump's select picks an arm at random: repeat
                             out.append({"cfg": C(kind="New", cap=cap, inputs=[list(range(1, 9))]), "cmds": pre + [B(*([S()] * k + [end]))],
                                         "epilogue": "closewait", "origin": "fill-and-end"})
+            # a send arriving exactly when the receiver frees a slot while a backlog is queued (the new value must not overtake)
+            for k in (cap + 2, 2 * cap + 3):
+                for rep in range(3):
+                    cmds = [S()] * k + [B(R(), S()), B(R(), S()), B(S(), R()), B(R(), S(), R())] + [R()] * 3
+                    out.append({"cfg": C(kind="New", cap=cap, inputs=[list(range(1, 30))]), "cmds": cmds, "epilogue": "closewait", "origin": "overtake"})
             # a long backlog that drains partly, grows again well beyond its earlier size, and drains completely
             n = 60
             cmds = [S()] * 10 + [R()] * 6 + [S()] * 30 + [R()] * 20 + [S()] * 20 + [R()] * 45
@@ -670,7 +679,7 @@ def race_pass(run, scheds, d, rng, th):
         run.traces += len(traces)
         for t in traces:
             if t.get("race"):
-                run.violation({"stage": "fork." + t["cfg"]["kind"], "pred": "DataRace"}, "data race reported by the race detector: " + t["race"][:300],
+                run.violation({"stage": ("fork." if t["cfg"]["forked"] else "pipe.") + t["cfg"]["kind"], "pred": "DataRace"}, "data race reported by the race detector: " + t["race"][:300],
                               {"sched": t.get("sched"), "race": t["race"]})
     run.notes["race_detector_runs"] = (3 if th else 1) * len(sub)
 
